@@ -128,6 +128,12 @@ func (c *bclient) publishB(topic string, qos byte, retain bool, payload []byte) 
 	p := &rc.Packet{Type: rc.PUBLISH, Topic: []byte(topic), QoS: qos, Retain: retain, Payload: payload}
 	if qos > 0 {
 		p.ID = c.ids.next()
+		// every fifth acknowledged publish carries the DUP flag, as a client's first packets after a
+		// reconnect do (it cannot know whether the broker saw the original)
+		if p.ID%5 == 0 {
+			p.Dup = true
+			out.Count("kit.publishes_flagged_dup", 1)
+		}
 	}
 	c.SendPacket(p)
 	settle()
